@@ -30,6 +30,10 @@ def run(res):
     add(10, {}, "motion", 96, 80, 10)
     add(12, {"tile_columns": 1, "tile_rows": 1}, "motion", 256, 128)
     add(10, {"screen_content_mode": 1}, "screen", 128, 128)
+    # palette-coded blocks whose colour levels sweep the sample range incl. power-of-two distances from the maximum (the points where the
+    # literal width of the delta-coded palette colours changes), 8 and 10 bit
+    add(9, {"screen_content_mode": 1}, "palsweep", 192, 128)
+    add(9, {"screen_content_mode": 1, "qp": 20}, "palsweep", 128, 128, 10)
     add(17, {"enable_overlays": 1, "tf_level": 1, "hierarchical_levels": 3}, "motion", 128, 64)
     add(12, {"intra_period_length": 0}, "edges")
     add(9, {"enc_mode": 5}, "motion", 128, 128)
